@@ -8,7 +8,8 @@ Every generated function
      integers/chars/_Bool/float/double: the object representation (sizeof bytes)
      long double: the value converted to double (8 bytes)
      struct by value: every field, in order (no padding)
-     pointer: 1 byte null flag (1 = non-null), then c13_plen[j] bytes of the pointee
+     pointer: 1 byte null flag (1 = non-null), then c13_plen[j] bytes of the pointee (a 64-bit hash of them
+              when there are more than 64)
               (c13_plen[j] is set by the caller); a non-const pointee is then modified
               (every byte ^= 0xA5) so that effects on pointed-to memory are observable
      function pointer: null flag, then the int returned by cb(3)
@@ -82,6 +83,7 @@ PTRS = {
     'const _Bool *': ('_Bool', 1), 'uint64_t *': ('uint64_t', 0), 'int8_t *': ('int8_t', 0),
     'const wchar_t *': ('wchar_t', 1), 'wchar_t *': ('wchar_t', 0), 'const char16_t *': ('char16_t', 1),
     'struct s1 *': ('struct s1', 0), 'const unsigned char *': ('unsigned char', 1),
+    'const struct s6 *': ('struct s6', 1), 'const struct s1 *': ('struct s1', 1),
     'float *': ('float', 0), 'const signed char *': ('signed char', 1),
 }
 FNPTR = 'c13_cb_t'
@@ -182,7 +184,13 @@ static void c13_put(const void *p, size_t n) {
 static void c13_ptr(const void *p, int n, int writable) {
     unsigned char flag = (p != NULL);
     c13_put(&flag, 1);
-    if (p != NULL && n > 0) {
+    if (p != NULL && n > 64) {      /* long pointee: every byte is read, a 64-bit polynomial hash is recorded */
+        unsigned long long h = 0; int k; const unsigned char *q = (const unsigned char *)p;
+        for (k = 0; k < n; k++) h = h * 31 + q[k];
+        c13_put(&h, 8);
+        if (writable) { unsigned char *w = (unsigned char *)p; for (k = 0; k < n; k++) w[k] ^= 0xA5; }
+    }
+    else if (p != NULL && n > 0) {
         c13_put(p, (size_t)n);
         if (writable) { int k; unsigned char *q = (unsigned char *)p; for (k = 0; k < n; k++) q[k] ^= 0xA5; }
     }
